@@ -15,3 +15,16 @@ Definition check_hub_C11 := hub_project [15; 16].
 Definition check_hub_C01 := hub_project [10; 17].
 (* C09: created connections get the stored SHIP id *)
 Definition check_hub_C09 := hub_project [18].
+
+(* C17, the hub's part: every mDNS report the hub receives is passed on to the application
+   as a visible-services list with one entry per reported service (connected or not) *)
+Definition visible_ok (g : list (label * list obs)) : bool :=
+  forallb (fun lo =>
+    match fst lo with
+    | LReport ks => existsb (fun o => match o with OVisible n => N.eqb n (N.of_nat (length ks)) | _ => false end) (snd lo)
+    | _ => true
+    end) g.
+
+Definition check_hub_C17 (c : c10_case) : codes :=
+  hub_project [] c ++
+  (if forallb (fun s => visible_ok (st_group s)) (cc_steps c) then [] else [130]).
